@@ -15,6 +15,8 @@ package integration_tests
 import (
 	"fmt"
 	"math/rand"
+	"runtime"
+	"runtime/debug"
 	"strings"
 	"sync"
 	"testing"
@@ -504,27 +506,39 @@ func vfC16EnumCase(id string, base string, lazy bool, pos int, f vfC16Fault, lat
 	return c
 }
 
-// The enumeration is split in shards (base script index mod 4) that run as parallel tests of one
-// process; together they cover the whole space.
+// The enumeration is split in shards (case index mod 3), one test PROCESS each; together they cover
+// the whole space. Bubbles of one process run strictly one after the other: with several bubbles
+// alive at once the go1.25.0 runtime sporadically dies with "WaitGroup.Add called from multiple
+// synctest bubbles" on a WaitGroup local to quic-go's Transport.close (also seen by the C10 harness).
 func TestVerifC16Enum0(t *testing.T) { vfC16Enum(t, "c16-enum-0", 0) }
 func TestVerifC16Enum1(t *testing.T) { vfC16Enum(t, "c16-enum-1", 1) }
 func TestVerifC16Enum2(t *testing.T) { vfC16Enum(t, "c16-enum-2", 2) }
-func TestVerifC16Enum3(t *testing.T) { vfC16Enum(t, "c16-enum-3", 3) }
 
-const vfC16EnumShards = 4
+const vfC16EnumShards = 3
+
+// vfC16GCOff switches the collector off while bubbles are alive (the C10 harness saw bubbled goroutines
+// parked in "GC assist wait" never being woken under machine load); vfC16GC collects by hand between cases.
+func vfC16GCOff() func() {
+	old := debug.SetGCPercent(-1)
+	return func() { debug.SetGCPercent(old) }
+}
+
+func vfC16GC(i int) {
+	if i%8 == 0 {
+		runtime.GC()
+	}
+}
 
 func vfC16Enum(t *testing.T, part string, shard int) {
-	t.Parallel()
+	defer vfC16GCOff()()
 	k := vfNewKit(t, "C16", part)
 	defer k.Finish()
 	all := vfC16BaseScripts(k)
 	space := 0
 	positions := 0
 	nbases := 0
+	idx := 0
 	for bi, base := range all {
-		if bi%vfC16EnumShards != shard {
-			continue
-		}
 		nbases++
 		if len(base) > 6 {
 			t.Fatalf("harness: base script longer than the enumeration bound")
@@ -534,6 +548,10 @@ func vfC16Enum(t *testing.T, part string, shard int) {
 			for pos := 0; pos <= len(base); pos++ {
 				positions++
 				for _, f := range vfC16Faults {
+					idx++
+					if idx%vfC16EnumShards != shard {
+						continue
+					}
 					space++
 					id := fmt.Sprintf("enum-%s-%s-p%d-%s", base, map[bool]string{true: "lazy", false: "eager"}[lazy], pos, f.Name)
 					if rc := k.ReplayCase(); rc != "" && rc != id {
@@ -546,13 +564,14 @@ func vfC16Enum(t *testing.T, part string, shard int) {
 						k.Sample(c)
 					}
 					vfC16RunCase(t, k, c)
+					vfC16GC(space)
 				}
 			}
 		}
 	}
 	k.Count("enum_space_cases", int64(space))
-	k.Count("enum_base_scripts", int64(nbases))
-	k.Count("enum_kill_positions_x_start_modes", int64(positions))
+	k.Count("enum_base_scripts_all_shards", int64(nbases))
+	k.Count("enum_kill_positions_x_start_modes_all_shards", int64(positions))
 	k.Count("enum_fault_kinds", int64(len(vfC16Faults)))
 }
 
@@ -613,7 +632,7 @@ func vfC16GenRandom(k *vfKit, id string) vfC16Case {
 }
 
 func TestVerifC16Random(t *testing.T) {
-	t.Parallel()
+	defer vfC16GCOff()()
 	k := vfNewKit(t, "C16", "c16-random")
 	defer k.Finish()
 	n := k.N(150, 4000)
@@ -636,13 +655,14 @@ func TestVerifC16Random(t *testing.T) {
 			k.Sample(c)
 		}
 		vfC16RunCase(t, k, c)
+		vfC16GC(i)
 	}
 }
 
 // ---------------------------------------------------------------- part 3: stream limit
 
 func TestVerifC16StreamLimit(t *testing.T) {
-	t.Parallel()
+	defer vfC16GCOff()()
 	k := vfNewKit(t, "C16", "c16-streamlimit")
 	defer k.Finish()
 	n := k.N(24, 400)
@@ -681,6 +701,7 @@ func TestVerifC16StreamLimit(t *testing.T) {
 		if k.Counter("ev_streamlimit_recoverable_error")+k.Counter("violations_total") == before {
 			k.Inconclusive(id + ": more than MaxIncomingStreams streams held open but no call hit the stream limit")
 		}
+		vfC16GC(i)
 	}
 }
 
